@@ -122,7 +122,7 @@ def runSection (r : Report) (s : Section) : Report := Id.run do
           r := r.addCover s!"{via}-joiner-got-leaders-value"
         else r := r.addCover s!"{via}-got-cached-value"
   r := r.addCover s!"{mode}-sections"
-  if kvStr s.cfg "herd" "0" = "1" then r := r.addCover s!"{mode}-sections-herd(one key, no delays)"
+  if kvStr s.cfg "herd" "0" = "1" then r := r.addCover s!"{mode}-sections-herd"
   if mode = "rm" && kvStr s.cfg "sfd" "-" ≠ "-" then r := r.addCover "rm-sections-delayed-flight-entry"
   for o in h do
     r := r.addCover s!"{mode}-calls"
